@@ -83,8 +83,8 @@ def parse_inputbox(tokens, xopts):
 
     for token in tokens:
         if token.tagname == "inputbox":
-            token.inputbox = Token.join_as_text(token.children)
-            del token.children[:]
+            token.inputbox = Token.join_as_text(token.children or [])
+            token.children = []
 
 
 def create(current, tokens, sections, index):
